@@ -66,7 +66,7 @@ def run(tier, seed, replay=None):
         if rep.get("extra", {}).get("read_error") or rep.get("extra", {}).get("shards_failed"):
             raise vlib.Infra("c16 harness (%s): %s" % (conf, rep.get("extra")))
         vlib.log("[schedules] %s: %d scenarios, %d inconclusive, %d divergences, %s" % (conf, rep["evaluations"], rep["inconclusive"], len(rep["divergences"]), rep.get("extra")))
-        if rep["evaluations"] and rep["inconclusive"] > 0.2 * rep["evaluations"]:
+        if rep["evaluations"] and rep["inconclusive"] > 0.2 * rep["evaluations"] and not rep["divergences"]:
             raise vlib.Infra("too many inconclusive scenarios: " + str(rep["extra"].get("infra_example")))
         ck.add_report(rep)
         lines = []
